@@ -437,14 +437,14 @@ func c08Catalog() []c08Entry {
 			return ct
 		}),
 		entryOf("rlwe.Parameters", func(g *c08Gen) *rlwe.Parameters { p := g.params; return &p }),
-		binEntryOf("bgv.Parameters", func(g *c08Gen) *bgv.Parameters {
+		entryOf("bgv.Parameters", func(g *c08Gen) *bgv.Parameters {
 			p, err := bgv.NewParametersFromLiteral(bgv.ParametersLiteral{LogN: g.spec.LogN, Q: g.params.Q(), P: g.params.P(), PlaintextModulus: 0x101})
 			if err != nil {
 				g.ctx.Harness("bgv params: %v", err)
 			}
 			return &p
 		}),
-		binEntryOf("ckks.Parameters", func(g *c08Gen) *ckks.Parameters {
+		entryOf("ckks.Parameters", func(g *c08Gen) *ckks.Parameters {
 			lit := ckks.ParametersLiteral{LogN: g.spec.LogN, Q: g.params.Q(), P: g.params.P(), LogDefaultScale: 10 + g.ch.Draw("ckks-logscale", 40),
 				RingType: []ring.Type{ring.Standard, ring.ConjugateInvariant}[g.ch.Draw("ckks-ringtype", 2)]}
 			p, err := ckks.NewParametersFromLiteral(lit)
@@ -488,14 +488,35 @@ func c08Catalog() []c08Entry {
 				DoubleAngle: g.ch.Draw("m1-da", 4), Mod1InvDegree: g.ch.Draw("m1-inv", 8)}
 		}),
 		jsonEntryOf("rlwe.ParametersLiteral", func(g *c08Gen) *rlwe.ParametersLiteral {
+			if g.ch.Bool("lit-by-sizes") {
+				// the other way of writing a literal: sizes instead of primes, a chosen root of unity, and the
+				// distributions left to their defaults (or set)
+				l := &rlwe.ParametersLiteral{LogN: g.spec.LogN, LogQ: g.spec.LogQ, LogP: g.spec.LogP, LogNthRoot: g.spec.LogN + 1 + g.ch.Draw("lit-nthroot-extra", 3),
+					NTTFlag: g.ch.Bool("lit-ntt")}
+				if g.ch.Bool("lit-with-xs") {
+					l.Xs = ring.Ternary{H: 1 + g.ch.Draw("lit-H", 16)}
+				}
+				if g.ch.Bool("lit-with-xe") {
+					l.Xe = ring.DiscreteGaussian{Sigma: 3.2, Bound: 19.2}
+				}
+				return l
+			}
 			l := g.params.ParametersLiteral()
 			return &l
 		}),
 		jsonEntryOf("bgv.ParametersLiteral", func(g *c08Gen) *bgv.ParametersLiteral {
-			return &bgv.ParametersLiteral{LogN: g.spec.LogN, Q: g.params.Q(), P: g.params.P(), PlaintextModulus: 0x101,
+			l := &bgv.ParametersLiteral{LogN: g.spec.LogN, Q: g.params.Q(), P: g.params.P(), PlaintextModulus: 0x101,
 				Xe: ring.DiscreteGaussian{Sigma: 3.2, Bound: 19.2}, Xs: []ring.DistributionParameters{ring.Ternary{P: 0.5}, ring.Ternary{H: 1 + g.ch.Draw("lit-H", 16)}}[g.ch.Draw("lit-xs", 2)]}
+			if g.ch.Bool("lit-defaults") {
+				l.Xe, l.Xs = nil, nil
+				l.LogNthRoot = g.spec.LogN + 2
+			}
+			return l
 		}),
 		jsonEntryOf("ckks.ParametersLiteral", func(g *c08Gen) *ckks.ParametersLiteral {
+			if g.ch.Bool("lit-defaults") {
+				return &ckks.ParametersLiteral{LogN: g.spec.LogN, LogQ: g.spec.LogQ, LogP: g.spec.LogP, LogDefaultScale: 10 + g.ch.Draw("lit-logscale", 40), LogNthRoot: g.spec.LogN + 2}
+			}
 			return &ckks.ParametersLiteral{LogN: g.spec.LogN, LogQ: g.spec.LogQ, LogP: g.spec.LogP, LogDefaultScale: 10 + g.ch.Draw("lit-logscale", 40),
 				RingType: []ring.Type{ring.Standard, ring.ConjugateInvariant}[g.ch.Draw("lit-ringtype", 2)], Xs: ring.Ternary{H: 1 + g.ch.Draw("lit-H", 16)}}
 		}),
